@@ -128,6 +128,7 @@ def options_reads(ix, R, f, O) -> list[tuple[str, ast.AST, str]]:
 
 def run(chk: Check) -> None:
     ix = get_index()
+    run_dep_import_options(chk, ix)
     R = Resolver(ix)
     chk.trusted += ["receiver typing by annotations (sa/resolve.py)", "RTA call graph with name-based fallback (sa/callgraph.py)"]
     mopt = ix.module("mypy.options")
@@ -394,3 +395,50 @@ def run(chk: Check) -> None:
             r2.violation(key, f"{ix.functions[bad[0]].module.relpath}:{bad[1].lineno} {bad[0]}", f"{opt} is applied at print time ({loc}) and also while rendering cached tuples")
         else:
             r2.ok(key, loc)
+
+
+def run_dep_import_options(chk: Check, ix) -> None:
+    """R09.5: what decides whether a dependency is suppressed is what suppressed_deps_opts records."""
+    r5 = chk.rule("R09.5", "every per-module option of the *target* that find_module_and_diagnose reads to decide whether an import is followed, silenced or suppressed is encoded by Options.dep_import_options (compared by State.is_fresh through suppressed_deps_opts)", floor=3)
+    fmd = ix.func("mypy.build.find_module_and_diagnose")
+    pnames = [a.arg for a in fmd.params]
+    if "options" not in pnames:
+        raise AnalysisError("find_module_and_diagnose no longer takes the target's options")
+    reads = {}
+    for n in ast.walk(fmd.node):
+        if isinstance(n, ast.Attribute) and isinstance(n.value, ast.Name) and n.value.id == "options" and isinstance(n.ctx, ast.Load):
+            reads.setdefault(n.attr, n)
+    dio = ix.func("mypy.options.Options.dep_import_options")
+    written = set()
+    for c in ast.walk(dio.node):
+        if isinstance(c, ast.Call) and isinstance(c.func, ast.Name) and c.func.id.startswith("write_"):
+            for a in c.args[1:]:
+                if isinstance(a, ast.Attribute) and norm(a.value) == "self":
+                    written.add(a.attr)
+    if len(reads) < 3 or not written:
+        raise AnalysisError(f"reads of the target's options ({sorted(reads)}) or dep_import_options fields ({sorted(written)}) not recognised")
+    for a, n in sorted(reads.items()):
+        key = f"find_module_and_diagnose reads options.{a}: recorded by dep_import_options"
+        if a in written:
+            r5.ok(key, fmd.loc(n))
+        else:
+            r5.violation(key, fmd.loc(n), f"the decision to follow/suppress an import depends on the target's `{a}`, but dep_import_options does not encode it: changing it for a suppressed dependency leaves the importer 'fresh' with the old suppression")
+    # the value stored and the value compared come from the same method
+    st = ix.cls("mypy.build.State")
+    sdo = st.methods.get("suppressed_deps_opts")
+    if sdo is None:
+        raise AnalysisError("State.suppressed_deps_opts vanished")
+    uses_table = any(isinstance(c, ast.Call) and isinstance(c.func, ast.Name) and c.func.id.startswith("write_") and any("import_options[" in norm(a) for a in c.args) for c in ast.walk(sdo.node))
+    stores = []
+    for q, f in ix.functions.items():
+        if f.parent is not None or f.module.name != "mypy.build":
+            continue
+        for a in ast.walk(f.node):
+            if isinstance(a, ast.Assign) and isinstance(a.targets[0], ast.Subscript) and isinstance(a.targets[0].value, ast.Attribute) and a.targets[0].value.attr == "import_options":
+                stores.append((f, a))
+    bad = [(f, a) for f, a in stores if not (isinstance(a.value, ast.Call) and isinstance(a.value.func, ast.Attribute) and a.value.func.attr == "dep_import_options")]
+    key = "State.suppressed_deps_opts records manager.import_options[dep], which only ever holds dep_import_options() of the dependency's options"
+    if uses_table and stores and not bad:
+        r5.ok(key, sdo.loc(), f"{len(stores)} store sites")
+    else:
+        r5.violation(key, (bad[0][0].loc(bad[0][1]) if bad else sdo.loc()), "the recorded import options of suppressed dependencies no longer come from Options.dep_import_options")
